@@ -117,7 +117,7 @@ def gen(rng, tier):
     for c in _gen_core(rng, tier):
         yield c
     from driver import cligen
-    for c in cligen.cases(rng, ['clean', 'cleanseqs'], 40 if tier == "quick" else 400):
+    for c in cligen.cases(rng, ['clean', 'cleanseqs', 'clean-files'], 40 if tier == "quick" else 400):
         yield c
     for _ in range(3 if tier == "quick" else 30):
         for flagname, argv in [('--positions', ['clean', 'sites', '-c', '0.3']), ('--positions-rm', ['clean', 'sites', '-c', '0.3']), ('-o', ['clean', 'sites', '-c', '0.3'])]:
